@@ -1,6 +1,7 @@
 """C19 - scheduled tasks run at most once, never early, and stay cancelled."""
 import itertools
 from common import *
+import xcheck
 
 SPAWNS = ["(spawn_once none)", "(spawn_once 5)", "(spawn_repeat 3 none 2)", "(spawn_repeat 3 5 1)", "(spawn_repeat 3 none 0)",
           "(spawn_sub none)", "(spawn_sub 5)"]
@@ -76,7 +77,8 @@ def run(tier, seed, replay=None):
     if not build_stage(rep):
         return rep.finish()
     cases = load_replay_case(replay) if replay else make_cases(tier, rng)
-    correspond(rep, "C19", cases, "C19_once_at_most_once / C19_never_before_delay / C19_repeat_ticks / C19_quiet_after_cancel_or_closed")
+    res = correspond(rep, "C19", cases, "C19_once_at_most_once / C19_never_before_delay / C19_repeat_ticks / C19_quiet_after_cancel_or_closed")
+    xcheck.cross_check(rep, "C19", cases, res, 40 if tier == "quick" else 400)
     c = rep.coverage
     hist = {}
     for _, _, t in cases:
